@@ -69,6 +69,38 @@ def unbound_flags(name, text, spec):
     return {"unbound_is_level_name": level, "coord_stamp_on_flattened_rank": coord_flat}
 
 
+def format_concordant(name, spec):
+    """Is some format of the tensor named by the variable `name` written in the order in which one of the Einsums using the
+    tensor iterates it (its levels in that Einsum's explicit loop order)?  Computed from the specification alone.
+    None when it cannot be decided (no explicit loop order / no format)."""
+    from teaal.parse.yaml import YamlParser      # ruamel-based reader shipped with the repository (JSON is YAML)
+    m = runlib.NAME_RE.match(name)
+    try:
+        d = YamlParser.parse_str(spec.yaml)
+    except Exception:
+        return None
+    if not m or not isinstance(d, dict) or m.group(1) not in (d.get("format") or {}):
+        return None
+    t = m.group(1)
+    loops = (d.get("mapping") or {}).get("loop-order") or {}
+    verdicts = []
+    for fname, f in (d["format"][t] or {}).items():
+        order = list(f.get("rank-order") or [])
+        for st in spec.structs:
+            uses = st["out"] == t or any(fc[0] == "T" and fc[1] == t for tm in st["terms"] for fc in tm["factors"])
+            if uses and st["out"] in loops:
+                verdicts.append([r for r in loops[st["out"]] if r in order] == order)
+    return any(verdicts) if verdicts else None
+
+
+def metrics_flags(name, text, spec):
+    """keys of the metrics-mode findings (as computed by C11) + whether the format read is the loop-concordant one"""
+    from props import c11
+    fl = c11.unbound_class(name, text, spec)
+    fl["format_is_loop_concordant"] = format_concordant(name, spec)
+    return fl
+
+
 def analyse(ctx, items, tag):
     """items: list of (label, spec, syms, text, meta) -> list of (item, 'OK' | unbound name | error)."""
     exprs, ok_items, out = [], [], []
@@ -111,6 +143,22 @@ def gather(ctx):
     pops += list(popgen.with_spacetime(rng, base))
     pops += popgen.accelerators()
     pops += list(popgen.compute_only(rng, 25 if q else 200))
+    # metrics mode beyond the shipped accelerators: hardware cascades with partitioning (shape, occupancy, stacks), the
+    # partitioned populations wrapped in an architecture, buffer hierarchies with lazy/eager bindings and evict-on ranks
+    import specgen_hw
+    import specgen_c12
+    pops += [specgen_hw.gen_cascade(rng) for _ in range(60 if q else 500)]
+    for gen, n in ((popgen.shape, 30 if q else 250), (popgen.occupancy, 50 if q else 400)):
+        for it in gen(rng, n):
+            w = specgen_hw.wrap_single(rng, it)
+            if w is not None:
+                pops.append(w)
+    for _ in range(90 if q else 700):
+        y, meta = specgen_c12.gen(rng)
+        pops.append({"yaml": y, "kind": "generated-c12", "arch": True, "syms": {}})
+    for _ in range(15 if q else 100):
+        y, meta = specgen_c12.gen_sigma(rng)
+        pops.append({"yaml": y, "kind": "generated-c12-sigma", "arch": True, "syms": {}})
     return pops
 
 
@@ -142,6 +190,8 @@ def run(ctx):
             name = r[8:]
             key = {"kind": "unbound-name"}
             key.update(unbound_flags(name, text, spec))
+            if meta.get("arch"):
+                key.update(metrics_flags(name, text, spec))
             what = "identifier `%s` is read but not bound on every path (mode %s)" % (name, label)
         else:
             key = {"kind": "not-python-subset", "detail": r[:40]}
@@ -161,7 +211,7 @@ def run(ctx):
 def replay(ctx, rep):
     r = rep["replay"]
     spec = runlib.Spec(r["yaml"])
-    text = spec.compile(arch=r["mode"].startswith(("accelerator", "compute-only")))
+    text = spec.compile(arch=r["mode"].startswith(("accelerator", "compute-only", "hw-", "generated-c12")) or "+hw" in r["mode"])
     res = analyse(ctx, [(r["mode"], spec, {}, text, {})], "c06r")
     print(text)
     print(res[0][1])
